@@ -138,7 +138,17 @@ func runScheduled(ctl *k4.Controller, sc Scenario, prefix []int, choose func(ena
 		}
 		r.Sched = append(r.Sched, pick)
 		r.Enabled = append(r.Enabled, enabled)
-		if now := w.snapshot(); now != snap {
+		now, ok := w.snapshotBounded()
+		if !ok {
+			// the plain read does not come back: a parked writer holds a lock outside its sections
+			r.Stuck = true
+			stuckHooked++
+			r.Sched = append(r.Sched, pick)
+			r.Hist = append(r.Hist, HOp{T: pick, N: cur[pick], Op: sc.Progs[pick][min(cur[pick], len(sc.Progs[pick])-1)], Inv: inv[pick], Resp: step, Res: "deadlock", GenID: -1})
+			r.Final, r.Stamps = map[int]P{}, map[int]int64{}
+			return r
+		}
+		if now != snap {
 			ch := stepChange{Step: int(step), T: pick, Before: snap, After: now}
 			if cur[pick] < len(sc.Progs[pick]) {
 				ch.Op = sc.Progs[pick][cur[pick]]
